@@ -44,6 +44,8 @@ var claimKernels = []gen.ExecKernel{
 	{Family: "dupArg", Body: "r2 = strings.Contains(‹S:x›, ‹S:x›)\nr0 = copy(xs, xs) + strings.Compare(s, s)\nr2 = r2 != bytes.Equal(bs, bs)", Focus: []string{"s", "t", "bs"}},
 	{Family: "dupArg", Body: "ctr := 0\nnexts := func() string { ctr++; return strings.Repeat(\"a\", ctr) }\nr2 = strings.Contains(nexts(), nexts())\nr2 = r2 != strings.HasPrefix(nexts(), nexts())", Focus: []string{"a"}},
 	{Family: "caseOrder", Body: "vals := []interface{}{nil, 1, \"s\", strT(\"x\"), &ptrStr{\"p\"}, fmt.Errorf(\"e\"), pair{}}\nval := vals[(a+3)%len(vals)]\nswitch val.(type) {\ncase fmt.Stringer:\nr0 = 1\ncase strT:\nr0 = 2\ncase *ptrStr:\nr0 = 3\ncase error:\nr0 = 4\n}", Focus: []string{"a"}},
+	{Family: "caseOrder", Body: "vals := []interface{}{nil, 1, ptrStr{\"v\"}, strT(\"x\"), &ptrStr{\"p\"}, fmt.Errorf(\"e\"), pair{}, &pair{}}\nval := vals[(a+3)%len(vals)]\nswitch val.(type) {\ncase fmt.Stringer:\nr0 = 1\ncase ptrStr:\nr0 = 2\ncase pair:\nr0 = 3\ncase *pair:\nr0 = 4\n}", Focus: []string{"a"}},
+	{Family: "caseOrder", Body: "vals := []interface{}{nil, 1, ptrStr{\"v\"}, strT(\"x\"), &ptrStr{\"p\"}, pair{}, &pair{}}\nval := vals[(a+3)%len(vals)]\nswitch val.(type) {\ncase interface{ Inc(int) int }:\nr0 = 1\ncase pair, ptrStr:\nr0 = 2\ncase interface{ Get(int) int }:\nr0 = 3\ncase *pair:\nr0 = 4\n}", Focus: []string{"a"}},
 	{Family: "caseOrder", Body: "vals := []interface{}{nil, 1, \"s\", strT(\"x\"), &ptrStr{\"p\"}, fmt.Errorf(\"e\"), pair{}}\nval := vals[(a+3)%len(vals)]\nswitch val.(type) {\ncase interface{}:\nr0 = 1\ncase nil:\nr0 = 2\ncase int:\nr0 = 3\n}", Focus: []string{"a"}},
 	{Family: "caseOrder", Body: "vals := []interface{}{nil, 1, \"s\", strT(\"x\"), &ptrStr{\"p\"}, fmt.Errorf(\"e\"), pair{}}\nval := vals[(a+3)%len(vals)]\nswitch x := val.(type) {\ncase interface{ String() string }:\nr1 = x.String()\ncase fmt.Stringer:\nr0 = 2\ncase strT, int:\nr0 = 3\n}", Focus: []string{"a"}},
 }
